@@ -20,11 +20,20 @@
 // The function form is also written behind a receiver (_self.G(…), nothing.G(…), rv.G(…), lm.G(…)),
 // and a second family (runHist) changes the policy between renders on one engine: what an earlier
 // render was allowed to do must not survive the policy forbidding it, and the other way round.
+//
+// A third family (runBuiltin, keys bi/…) forbids the engine's OWN built-in functions and filters, one
+// at a time (default policy minus that name), without re-registering them: the real built-in with real
+// arguments stands in every position where its value fits — in particular directly as the sequence of
+// a for loop, as a condition, as a set value and as an argument. There is no counter to look at, so the
+// observation is the output: the render must fail with a security violation and nothing of the
+// built-in's result may have been written below the sandbox boundary.
 package main
 
 import (
+	"bytes"
 	"errors"
 	"fmt"
+	"regexp"
 	"sort"
 	"strings"
 
@@ -424,6 +433,11 @@ func runCase(c cas) *vlib.Outcome {
 		forbidden, allowed = ffn, "ok"
 	}
 	o := &vlib.Outcome{Counters: map[string]int64{}}
+	if c.recv > 0 {
+		o.Counters[fmt.Sprintf("cases_grid_receiver_forms_depth%d", len(c.path))]++
+	} else {
+		o.Counters[fmt.Sprintf("cases_grid_depth%d", len(c.path))]++
+	}
 	routeNames := make([]string, len(c.path))
 	live := pos.live
 	for i, r := range c.path {
@@ -619,6 +633,7 @@ func runHist(c hcas) *vlib.Outcome {
 		name = ffn
 	}
 	o := &vlib.Outcome{Counters: map[string]int64{}}
+	o.Counters[fmt.Sprintf("cases_history_depth%d", len(c.path))]++
 	routeNames := make([]string, len(c.path))
 	live := pos.live
 	for i, r := range c.path {
@@ -725,6 +740,322 @@ func runHist(c hcas) *vlib.Outcome {
 	return o
 }
 
+// ---- built-in family: the policy forbids one of the engine's own functions / filters
+
+// A usage is one call of a built-in with literal arguments and a known, recognisable result.
+type usage struct {
+	id         string // key component
+	name       string // the built-in the policy forbids
+	fn         bool   // function (else filter)
+	expr       string // function usages: the call
+	base, call string // filter usages: the expression is base|call
+	kind       byte   // 's' scalar (shown by {{ … }}), 'l' list (shown by looping over it), 'o' a time value (shown through |date('Y'))
+	out        string // what showing the value renders
+	falsy      bool   // the value is false in a condition
+	applyText  string // filters without arguments that take text: {% apply name %}applyText{% endapply %} …
+	applyOut   string // … renders this
+}
+
+func (u usage) expression() string {
+	if u.fn {
+		return u.expr
+	}
+	return u.base + "|" + u.call
+}
+
+func (u usage) label() string {
+	if u.fn {
+		return "built-in function " + u.name + " as " + u.expr
+	}
+	return "built-in filter " + u.name + " as " + u.expression()
+}
+
+var usages = []usage{
+	{id: "range2", name: "range", fn: true, expr: "range(7, 9)", kind: 'l', out: "789"},
+	{id: "range3", name: "range", fn: true, expr: "range(3, 9, 3)", kind: 'l', out: "369"},
+	{id: "cycle", name: "cycle", fn: true, expr: "cycle(['p', 'q'], 1)", kind: 's', out: "q"},
+	{id: "date", name: "date", fn: true, expr: "date('2020-01-02')", kind: 'o', out: "2020"},
+	{id: "min", name: "min", fn: true, expr: "min(55, 44)", kind: 's', out: "44"},
+	{id: "max", name: "max", fn: true, expr: "max(66, 77)", kind: 's', out: "77"},
+	{id: "length", name: "length", fn: true, expr: "length('abcde')", kind: 's', out: "5"},
+	{id: "merge", name: "merge", fn: true, expr: "merge(['p'], ['q'])", kind: 'l', out: "pq"},
+	{id: "random", name: "random", fn: true, expr: "random(1)", kind: 's', out: "0", falsy: true}, // 0 ≤ random(1) < 1
+
+	{id: "default", name: "default", base: "null", call: "default('dflt')", kind: 's', out: "dflt"},
+	{id: "join", name: "join", base: "['p', 'q']", call: "join('-')", kind: 's', out: "p-q"},
+	{id: "length", name: "length", base: "'abcde'", call: "length", kind: 's', out: "5", applyText: "abcde", applyOut: "5"},
+	{id: "slice-s", name: "slice", base: "'pqr'", call: "slice(0, 2)", kind: 's', out: "pq"},
+	{id: "slice-l", name: "slice", base: "['p', 'q', 'r']", call: "slice(0, 2)", kind: 'l', out: "pq"},
+	{id: "first", name: "first", base: "['p', 'q']", call: "first", kind: 's', out: "p", applyText: "pqr", applyOut: "p"},
+	{id: "last", name: "last", base: "['p', 'q']", call: "last", kind: 's', out: "q", applyText: "pqr", applyOut: "r"},
+	{id: "keys", name: "keys", base: "{'p': 1}", call: "keys", kind: 'l', out: "p"},
+	{id: "merge", name: "merge", base: "['p']", call: "merge(['q'])", kind: 'l', out: "pq"},
+	{id: "sort", name: "sort", base: "['q', 'p']", call: "sort", kind: 'l', out: "pq"},
+	{id: "reverse", name: "reverse", base: "['p', 'q']", call: "reverse", kind: 'l', out: "qp", applyText: "pqr", applyOut: "rqp"},
+	{id: "escape", name: "escape", base: "'<i>'", call: "escape", kind: 's', out: "&lt;i&gt;", applyText: "<i>", applyOut: "&lt;i&gt;"},
+	{id: "raw", name: "raw", base: "'<i>'", call: "raw", kind: 's', out: "<i>", applyText: "<i>", applyOut: "<i>"},
+	{id: "spaceless", name: "spaceless", base: "'<i> </i> <u></u>'", call: "spaceless", kind: 's', out: "<i></i><u></u>", applyText: "<i> </i> <u></u>", applyOut: "<i></i><u></u>"},
+}
+
+// show renders a value of the given kind: @S( … @) in the snippets below.
+func show(kind byte, expr string) string {
+	switch kind {
+	case 'l':
+		return "{% for bi in " + expr + " %}{{ bi }}{% endfor %}"
+	case 'o':
+		return "{{ (" + expr + ")|date('Y') }}"
+	}
+	return "{{ " + expr + " }}"
+}
+
+// A bposition is a snippet with the hole @X (the usage's expression; @B|@C = its base and filter call,
+// @N its bare name, @A the text for apply). @S( e @) shows the value of e according to the usage's kind —
+// for a list usage "print" therefore IS the usage standing directly as the sequence of a for loop,
+// "paren" the same in parentheses, "func-arg" the loop over ok(range(7, 9)), and so on.
+type bposition struct {
+	name     string
+	snippet  string
+	out      string // @V = the shown value
+	outF     string // conditions: what is rendered when the value is falsy
+	cond     bool
+	kinds    string // usage kinds that fit
+	live     string
+	needsTop bool
+	chain    bool     // needs base and call: filter usages only
+	apply    bool     // apply block: filters with applyText only
+	helpers  []string // built-in filters the snippet itself uses (not generated when one of them is the forbidden name)
+	spaced   bool     // the output passes through the spaceless tag
+}
+
+var bpositions = []bposition{
+	{name: "print", snippet: "@S(@X@)", out: "@V", kinds: "slo", live: "live"},
+	{name: "paren", snippet: "@S((@X)@)", out: "@V", kinds: "slo", live: "live"},
+	{name: "chain-first", snippet: "@S(@X|okf@)", out: "@V", kinds: "slo", live: "live"},
+	{name: "chain-last", snippet: "@S(@B|okf|@C@)", out: "@V", kinds: "slo", live: "live", chain: true},
+	{name: "chain-middle", snippet: "@S(@B|okf|@C|okf@)", out: "@V", kinds: "slo", live: "live", chain: true},
+	{name: "chain-third", snippet: "@S(@B|okf|okf|@C@)", out: "@V", kinds: "slo", live: "live", chain: true},
+	{name: "filter-arg", snippet: "@S(null|default(@X)@)", out: "@V", kinds: "slo", live: "live", helpers: []string{"default"}},
+	{name: "func-arg", snippet: "@S(ok(@X)@)", out: "@V", kinds: "slo", live: "live"},
+	{name: "nested-call", snippet: "@S(ok(ok(@X)|okf)@)", out: "@V", kinds: "slo", live: "live"},
+	{name: "if-cond", snippet: "{% if @X %}y{% else %}n{% endif %}", out: "y", outF: "n", cond: true, kinds: "slo", live: "live"},
+	{name: "if-not", snippet: "{% if not (@X) %}n{% else %}y{% endif %}", out: "y", outF: "n", cond: true, kinds: "slo", live: "live"},
+	{name: "elseif-cond", snippet: "{% if false %}n{% elseif @X %}y{% endif %}", out: "y", outF: "", cond: true, kinds: "slo", live: "live"},
+	{name: "ternary-cond", snippet: "{{ (@X) ? 'y' : 'n' }}", out: "y", outF: "n", cond: true, kinds: "slo", live: "live"},
+	{name: "ternary-then", snippet: "@S(true ? (@X) : 'n'@)", out: "@V", kinds: "slo", live: "live"},
+	{name: "ternary-else", snippet: "@S(false ? 'n' : (@X)@)", out: "@V", kinds: "slo", live: "live"},
+	{name: "and-rhs", snippet: "{{ (true and (@X)) ? 'y' : 'n' }}", out: "y", outF: "n", cond: true, kinds: "slo", live: "live"},
+	{name: "or-rhs", snippet: "{{ (false or (@X)) ? 'y' : 'n' }}", out: "y", outF: "n", cond: true, kinds: "slo", live: "live"},
+	{name: "concat", snippet: "{{ (@X) ~ 'x' }}", out: "@Vx", kinds: "s", live: "live"},
+	{name: "array-element", snippet: "{{ [@X, 'w']|join('') }}", out: "@Vw", kinds: "s", live: "live", helpers: []string{"join"}},
+	{name: "hash-value", snippet: "@S({'k': @X}['k']@)", out: "@V", kinds: "slo", live: "live"},
+	{name: "hash-key", snippet: "{{ {(@X): 'x'}|length }}", out: "1", kinds: "s", live: "live", helpers: []string{"length"}},
+	{name: "index", snippet: "{{ {'k@V': 'iv'}['k' ~ (@X)] }}", out: "iv", kinds: "s", live: "live"},
+	{name: "set-value", snippet: "{% set q = @X %}@S(q@)", out: "@V", kinds: "slo", live: "live"},
+	{name: "do", snippet: "{% do @X %}", out: "", kinds: "slo", live: "live"},
+	{name: "for-sequence-else", snippet: "{% for bi in @X %}{{ bi }}{% else %}e{% endfor %}", out: "@V", kinds: "l", live: "live"},
+	{name: "for-sequence-kv", snippet: "{% for bk, bi in @X %}{{ bi }}{% endfor %}", out: "@V", kinds: "l", live: "live"},
+	{name: "for-body", snippet: "{% for bz in ['a', 'b'] %}@S(@X@){% endfor %}", out: "@V@V", kinds: "slo", live: "live"},
+	{name: "for-else", snippet: "{% for bz in [] %}n{% else %}@S(@X@){% endfor %}", out: "@V", kinds: "slo", live: "live"},
+	{name: "apply", snippet: "{% apply @N %}@A{% endapply %}", kinds: "slo", live: "live", apply: true},
+	{name: "spaceless", snippet: "{% spaceless %}<a> @S(@X@) </a>  <b></b>{% endspaceless %}", out: "<a> @V </a>  <b></b>", kinds: "slo", live: "live", helpers: []string{"spaceless"}, spaced: true},
+	{name: "include-with", snippet: "{% include 'bleaf' with {'x': @X} %}", out: "L@V", kinds: "slo", live: "live"},
+	{name: "include-name", snippet: "{% include 'bleaf' ~ (@X) %}", out: "L", kinds: "s", live: "live"},
+	{name: "macro-arg", snippet: "{% macro pm(p) %}<@S(p@)>{% endmacro %}{{ _self.pm(@X) }}", out: "<@V>", kinds: "slo", live: "live", needsTop: true},
+	{name: "macro-default", snippet: "{% macro pd(p = @X) %}<@S(p@)>{% endmacro %}{{ _self.pd() }}", out: "<@V>", kinds: "slo", live: "open", needsTop: true},
+	{name: "dead-if", snippet: "{% if false %}@S(@X@){% endif %}d", out: "d", kinds: "slo", live: "dead"},
+	{name: "dead-ternary", snippet: "{{ false ? (@X) : 'd' }}", out: "d", kinds: "slo", live: "dead"},
+	{name: "dead-and", snippet: "{{ (false and (@X)) ? 'y' : 'd' }}", out: "d", kinds: "slo", live: "dead"},
+	{name: "dead-for", snippet: "{% for bz in [] %}@S(@X@){% endfor %}d", out: "d", kinds: "slo", live: "dead"},
+}
+
+var betweenTags = regexp.MustCompile(`>\s+<`)
+
+// fits: the usage can stand in the position
+func (p bposition) fits(u usage) bool {
+	if !strings.ContainsRune(p.kinds, rune(u.kind)) {
+		return false
+	}
+	if p.chain && u.fn {
+		return false
+	}
+	if p.apply && (u.fn || u.applyText == "") {
+		return false
+	}
+	if !u.fn {
+		for _, h := range p.helpers {
+			if h == u.name {
+				return false
+			}
+		}
+	}
+	return true
+}
+
+// fillB returns the position's snippet with the usage in its hole, and what it renders.
+func fillB(p bposition, u usage) (snippet, out string) {
+	s := p.snippet
+	// @S( e @): e never contains "@)"
+	for {
+		i := strings.Index(s, "@S(")
+		if i < 0 {
+			break
+		}
+		j := strings.Index(s[i:], "@)") + i
+		s = s[:i] + show(u.kind, s[i+3:j]) + s[j+2:]
+	}
+	s = strings.ReplaceAll(s, "@X", u.expression())
+	s = strings.ReplaceAll(s, "@B", u.base)
+	s = strings.ReplaceAll(s, "@C", u.call)
+	s = strings.ReplaceAll(s, "@N", u.name)
+	s = strings.ReplaceAll(s, "@A", u.applyText)
+	s = strings.ReplaceAll(s, "@V", u.out)
+	switch {
+	case p.apply:
+		out = u.applyOut
+	case p.cond && u.falsy:
+		out = p.outF
+	default:
+		out = strings.ReplaceAll(p.out, "@V", u.out)
+	}
+	if p.spaced {
+		out = betweenTags.ReplaceAllString(out, "><")
+	}
+	return s, out
+}
+
+// builtinPolicy is the default policy plus what the programs need, with the usage's name allowed or not
+// (only in the list of its own sort: forbidding the function length leaves the filter length allowed).
+func builtinPolicy(u usage, allow bool) *twig.DefaultSecurityPolicy {
+	p, _ := makePolicy(polDefault, "", "")
+	dp := p.(*twig.DefaultSecurityPolicy)
+	m := dp.AllowedFilters
+	if u.fn {
+		m = dp.AllowedFunctions
+	}
+	if allow {
+		m[u.name] = true
+	} else {
+		delete(m, u.name)
+	}
+	return dp
+}
+
+type bcas struct {
+	usage    int
+	pos      int
+	path     []int
+	boundary int
+}
+
+func (c bcas) key() string {
+	u := usages[c.usage]
+	f := "fl"
+	if u.fn {
+		f = "fn"
+	}
+	return fmt.Sprintf("bi/%s.%s/%s/r%s/b%d", f, u.id, bpositions[c.pos].name, pathKey(c.path), c.boundary)
+}
+
+func runBuiltin(c bcas) *vlib.Outcome {
+	u, pos := usages[c.usage], bpositions[c.pos]
+	o := &vlib.Outcome{Counters: map[string]int64{}}
+	o.Counters[fmt.Sprintf("cases_builtin_depth%d", len(c.path))]++
+	routeNames := make([]string, len(c.path))
+	live := pos.live
+	for i, r := range c.path {
+		routeNames[i] = routes[r].name
+		if routes[r].open && live == "live" {
+			live = "open"
+		}
+	}
+	label := fmt.Sprintf("forbidden %s, position %s, route [%s], policy default minus %s", u.label(), pos.name, strings.Join(routeNames, " > "), u.name)
+
+	snippet, posOut := fillB(pos, u)
+	sb, tmpls, inner, ok := compose(c.path, position{needsTop: pos.needsTop, out: posOut}, snippet)
+	if !ok {
+		panic("compose: invalid path reached runBuiltin")
+	}
+	own := show(u.kind, u.expression()) // the includer uses the same built-in before and after the boundary
+	tmpls["sb"] = sb
+	tmpls["bleaf"] = "L" + show(u.kind, "x")
+	tmpls["bleaf"+u.out] = "L"
+	tmpls["main"] = own + "[" + boundaries[c.boundary] + "]" + own
+	tmpls["plain"] = strings.Replace(tmpls["main"], " sandboxed", "", 1)
+	want := u.out + "[" + inner + "]" + u.out
+
+	fail := func(run string, format string, args ...interface{}) *vlib.Outcome {
+		o.Violation = label + ", " + run + ": " + fmt.Sprintf(format, args...) + describe(tmpls)
+		o.Detail = map[string]interface{}{"templates": tmpls, "run": run}
+		return o
+	}
+	engine := func(pol twig.SecurityPolicy) (*twig.Engine, error) {
+		x, err := newEngine(pol, nil, "F", "G", tmpls)
+		if err != nil {
+			return nil, err
+		}
+		return x.e, nil
+	}
+	render := func(e *twig.Engine, name string) (string, error) {
+		o.Counters["renders"]++
+		var b bytes.Buffer
+		err := e.RenderTo(&b, name, map[string]interface{}{"w": 0})
+		return b.String(), err
+	}
+
+	// B. the twin: the same program under the same policy plus the name — what the policy allows keeps
+	// working inside the sandbox, and the program means what I think it means (the result is rendered)
+	e, err := engine(builtinPolicy(u, true))
+	if err != nil {
+		return fail("twin run (the policy allows "+u.name+")", "%v", err)
+	}
+	for pass := 1; pass <= 2; pass++ {
+		out, err := render(e, "main")
+		if err != nil || out != want {
+			return fail(fmt.Sprintf("twin run (the policy allows %s), render %d", u.name, pass), "got %q, %v; want %q", out, err, want)
+		}
+	}
+
+	// A. the policy forbids the name: plain, sandboxed, plain, sandboxed on one engine
+	e, err = engine(builtinPolicy(u, false))
+	if err != nil {
+		return fail("sandboxed run", "%v", err)
+	}
+	class := ""
+	for pass := 1; pass <= 2; pass++ {
+		run := fmt.Sprintf("unsandboxed render %d of the same program on the same engine", pass)
+		out, err := render(e, "plain")
+		if err != nil || out != want {
+			return fail(run, "got %q, %v; want %q", out, err, want)
+		}
+		run = fmt.Sprintf("sandboxed run, render %d", pass)
+		out, err = render(e, "main")
+		var sv *twig.SecurityViolation
+		switch {
+		case err != nil && !errors.As(err, &sv):
+			return fail(run, "the render failed with an error that is not a security violation: %v (written so far: %q)", err, out)
+		case err == nil && live == "live":
+			return fail(run, "the render succeeded (%q) although the forbidden built-in %s stands in an evaluated position", out, u.name)
+		case err == nil && out != want:
+			return fail(run, "got %q, want %q", out, want)
+		}
+		pc := "ok"
+		if err != nil {
+			pc = "violation"
+			// what was written before the failure: behind the boundary nothing of the built-in's result
+			if i := strings.Index(out, "["); i >= 0 && u.out != "" && strings.Contains(out[i+1:], u.out) {
+				return fail(run, "the render failed with %v, but the result %q of the forbidden built-in %s had already been written inside the sandbox (output so far %q)", err, u.out, u.name, out)
+			}
+		}
+		if pass == 2 && pc != class {
+			return fail(run, "first render: %s, second render: %s", class, pc)
+		}
+		class = pc
+	}
+	o.Nontrivial = live == "live" || class == "violation"
+	o.Class = fmt.Sprintf("builtin/%c/%s/%s", u.kind, live, class)
+	return o
+}
+
 // ---- enumeration
 
 func paths(depth int) [][]int {
@@ -744,9 +1075,9 @@ func paths(depth int) [][]int {
 }
 
 func enumerate(t *vlib.T) {
-	maxDepth, histDepth := 2, 1
+	maxDepth, histDepth, biDepth := 2, 1, 2
 	if t.Thorough() {
-		maxDepth, histDepth = 3, 2
+		maxDepth, histDepth, biDepth = 3, 2, 3
 	}
 	for depth := 0; depth <= maxDepth; depth++ {
 		ps := paths(depth)
@@ -767,6 +1098,11 @@ func enumerate(t *vlib.T) {
 						if depth == 3 && (builtin == 1 || recv > 1) {
 							continue
 						}
+						if depth == 2 && !t.Thorough() && recv > 0 && (builtin == 1 || (recv != 1 && recv != 4)) {
+							// quick tier, depth 2: of the receiver forms only _self and the hash variable (the two
+							// distinct evaluator branches) with the custom name; the rest runs in the thorough tier
+							continue
+						}
 						for policy := 0; policy < nPolicies; policy++ {
 							for b := range boundaries {
 								if depth >= 2 && b != 0 && !(t.Thorough() && depth == 2) {
@@ -778,6 +1114,34 @@ func enumerate(t *vlib.T) {
 								c := cas{pos: pi, fn: fn, recv: recv, builtin: builtin, path: path, policy: policy, boundary: b}
 								t.Case(c.key(), func() *vlib.Outcome { return runCase(c) })
 							}
+						}
+					}
+				}
+			}
+		}
+		// the built-in family at the same depth: the policy forbids one of the engine's own functions / filters
+		if depth <= biDepth {
+			for _, path := range ps {
+				for pi, pos := range bpositions {
+					if _, _, _, ok := compose(path, position{needsTop: pos.needsTop}, ""); !ok {
+						continue
+					}
+					for ui, u := range usages {
+						if !pos.fits(u) {
+							continue
+						}
+						if depth == 3 && !u.fn && u.kind != 'l' {
+							continue // depth 3: functions and list-valued filter usages (what can stand directly as a for sequence)
+						}
+						for b := range boundaries {
+							if b != 0 && (depth == 3 || (depth == 2 && !t.Thorough())) {
+								continue
+							}
+							if t.Stopped() {
+								return
+							}
+							c := bcas{usage: ui, pos: pi, path: path, boundary: b}
+							t.Case(c.key(), func() *vlib.Outcome { return runBuiltin(c) })
 						}
 					}
 				}
@@ -821,7 +1185,10 @@ func main() {
 			"x policy (default+needed, hand-written counting allow-list, deny-all) x boundary tag form x forbidden name (custom, built-in) is rendered with instrumented callbacks; " +
 			"a case is non-trivial when the control run (same program, everything allowed) invokes the forbidden callback from inside the sandboxed include, i.e. the position is really reached. " +
 			"History family (keys hist/…): on ONE engine the policy alternates between allowing and forbidding the name (orders AFAF and FAF) by in-place edit of the installed DefaultSecurityPolicy maps, by EnableSandbox(another policy) and by a stateful hand-written policy, " +
-			"over every position x form x route composition up to depth 1 quick / 2 thorough; non-trivial when a render in the allowing state invokes the callback from inside",
+			"over every position x form x route composition up to depth 1 quick / 2 thorough; non-trivial when a render in the allowing state invokes the callback from inside. " +
+			"Built-in family (keys bi/…): the policy is the default policy minus ONE of the engine's own built-ins (functions range, cycle, date, min, max, length, merge, random; filters default, join, length, slice, first, last, keys, merge, sort, reverse, escape, raw, spaceless — 23 usages with literal arguments and recognisable results, nothing re-registered) " +
+			"and that built-in stands in every one of 38 positions where its value fits (752 usage x position pairs) (list-valued usages directly as the sequence of a for loop, also parenthesised, with else, with key and value, nested, behind ok(…), default(…), a ternary, a hash; every usage as condition, set value, argument, chain link, apply) x every route composition up to depth 2 quick / 3 thorough; " +
+			"observed through the output of RenderTo: the render must fail with a security violation and nothing of the built-in's result may have been written behind the boundary; non-trivial when the position is evaluated (live position, or the run was refused)",
 		Assumptions: []string{
 			"whether calling a macro or parent() is a function call in the sense of the policy is not fixed by the statement: those names are always on the allow-lists (except under deny-all, where only 'never invoked' and 'errors are security violations' are demanded)",
 			"macro default expressions: whether they are evaluated is not fixed; only 'never invoked' and 'errors are security violations' are demanded there",
@@ -829,6 +1196,7 @@ func main() {
 			"tags are not part of this property (IsTagAllowed always answers true in the hand-written policies)",
 			"receiver-style calls recv.name(…): the statement does not say they are calls of the function `name`; the control run decides per case (where it does not invoke the callback the case is recorded as trivial and nothing is demanded)",
 			"'the engine's security policy' is read as the policy in force when the render happens: the object last passed to EnableSandbox with the answers it gives during that render",
+			"built-in family: the spaceless TAG is not taken for an application of the spaceless filter (not generated as a position of the forbidden filter spaceless); positions whose own helper filter (default, join, length) is the forbidden name are not generated; what RenderTo has written before a refused render is only inspected, never demanded",
 		},
 		QuickDeadline: 100, ThoroughDeadline: 840,
 		Run: enumerate,
